@@ -1,4 +1,6 @@
 import Okane.Lemmas.C05Round
+import Okane.Lemmas.C05DeclMerge
+import Okane.Lemmas.C05TxnExpr
 import Okane.Generated.ParamsTie
 /-!
 # C05 — documented syntax is read; formatting preserves meaning and is idempotent
@@ -110,6 +112,95 @@ theorem C05_roundtrip_directives (w : List Char → Nat) (t : List Char) (es : L
   rw [h1] at h1'
   cases h1'
   exact ⟨f, h1, h2, h3⟩
+
+/-! ## every entry kind except transactions (account and commodity declarations included) -/
+
+/-- `C05_entry` for every well-formed entry that is not a transaction: directives, top-level comments, and `account` /
+`commodity` declarations with any list of sub-directives (comment, note, alias, format lines) -/
+theorem C05_entry_nonTxn (w : List Char → Nat) (e : Entry) (hwf : wfEntry e = true) (hnt : ∀ t, e ≠ .txn t) :
+    EntryRT w e :=
+  entryRT_nonTxn w e hwf hnt
+
+/-- round trip and idempotence for every ledger without transactions whose entries are well formed -/
+theorem C05_roundtrip_nonTxn (w : List Char → Nat) (t : List Char) (es : List Entry)
+    (hp : parseEntries t = .ok es) (hwf : ∀ e ∈ es, wfEntry e = true) (hnt : ∀ e ∈ es, ∀ x, e ≠ .txn x) :
+    ∃ f, format w t = .ok f ∧ parseEntries f = .ok es ∧ format w f = .ok f := by
+  have hrt : ∀ e ∈ es, EntryRT w e := fun e he => C05_entry_nonTxn w e (hwf e he) (hnt e he)
+  obtain ⟨f, h1, h2⟩ := C05_roundtrip_partial w t es hp hrt
+  obtain ⟨f', h1', h3⟩ := C05_idempotent_partial w t es hp hrt
+  rw [h1] at h1'
+  cases h1'
+  exact ⟨f, h1, h2, h3⟩
+
+/-- without the adjacency condition of `wfEntry` (two consecutive comment or two consecutive note sub-directives):
+the printed declaration reads back with those neighbours merged, and the printed text is a fixed point of `format` -/
+theorem C05_decl_merge (w : List Char → Nat) (es : List Entry) (h : ∀ e ∈ es, wfLoose e = true) :
+    parseEntries (formatEntries w es) = .ok (es.map mergeEntry) ∧
+    format w (formatEntries w es) = .ok (formatEntries w es) :=
+  ⟨parseEntries_format_merge w es h, format_formatEntries_decl w es h⟩
+
+example : wfEntry exAccount = true ∧ wfEntry exCommodity = true := by decide +kernel
+example : EntryRT widthCjk exAccount := C05_entry_nonTxn _ _ (by decide +kernel) (by intro t h; cases h)
+
+/-! ## every entry kind, transactions included
+
+`wfEntry` alone is too weak for transactions: a *negative literal* as an operand inside parentheses
+(`.paren (.val (.amt ⟨neg := true, …⟩ _))`, printed `(-1)`) is read back as a negation of the positive literal — the
+parser (model and Rust alike) takes the `-` as the unary operator before a number token is tried
+(`C05_entry_full_false`).  The parser never produces such a tree; `plainEntry` excludes it.  With it, every entry kind
+round-trips. -/
+
+/-- no value expression of the entry holds a negative literal in operand position (decidable) -/
+def plainEntry (e : Entry) : Bool := (exprsOfEntry e).all ExprParse.plainV
+
+/-- **C05_entry**: every well-formed, plain entry of every kind — transaction (header with date, effective date, clear
+mark, code, payee, metadata; postings with account, value expressions, lot price/date/note, cost, balance assertion,
+metadata), declaration, directive, comment — is read back from its printed form, for any display-width function -/
+theorem C05_entry (w : List Char → Nat) (e : Entry) (hwf : wfEntry e = true) (hpl : plainEntry e = true) : EntryRT w e := by
+  cases e with
+  | txn t =>
+    refine entryRT_txn_plain w t (by simpa [wfEntry] using hwf) ?_
+    intro v hv
+    have := List.all_eq_true.mp hpl v (by simpa [exprsOfEntry] using hv)
+    exact this
+  | comment s => exact C05_entry_nonTxn w _ hwf (by intro t h; cases h)
+  | applyTag k v => exact C05_entry_nonTxn w _ hwf (by intro t h; cases h)
+  | endApplyTag => exact C05_entry_nonTxn w _ hwf (by intro t h; cases h)
+  | «include» p => exact C05_entry_nonTxn w _ hwf (by intro t h; cases h)
+  | account n ds => exact C05_entry_nonTxn w _ hwf (by intro t h; cases h)
+  | commodity n ds => exact C05_entry_nonTxn w _ hwf (by intro t h; cases h)
+
+/-- the statement with `wfEntry` alone is false (`(-1)` as a posting amount) -/
+theorem C05_entry_full_false : ¬ C05_entry_full := by
+  intro h
+  exact not_entryRT_txn_stmt (fun w t ht => h w (.txn t) (by simpa [wfEntry] using ht))
+
+/-- **C05_roundtrip / C05_idempotent** for every text whose parsed entries are well formed and plain (the image
+property — that the parser only returns such trees, up to `canonEntry` — is checked by the driver on every accepted
+text of the correspondence stream; its proof is the remaining gap to `C05_roundtrip_full`): the formatted text parses to
+exactly the same entries, and formatting it again returns it unchanged -/
+theorem C05_roundtrip (w : List Char → Nat) (t : List Char) (es : List Entry)
+    (hp : parseEntries t = .ok es) (hwf : ∀ e ∈ es, wfEntry e = true) (hpl : ∀ e ∈ es, plainEntry e = true) :
+    ∃ f, format w t = .ok f ∧ parseEntries f = .ok es ∧ format w f = .ok f := by
+  have hrt : ∀ e ∈ es, EntryRT w e := fun e he => C05_entry w e (hwf e he) (hpl e he)
+  obtain ⟨f, h1, h2⟩ := C05_roundtrip_partial w t es hp hrt
+  obtain ⟨f', h1', h3⟩ := C05_idempotent_partial w t es hp hrt
+  rw [h1] at h1'
+  cases h1'
+  exact ⟨f, h1, h2, h3⟩
+
+/-- what `format` writes for well-formed plain entries is a fixed point of `format` and parses back to them -/
+theorem C05_format_fixed (w : List Char → Nat) (es : List Entry)
+    (hwf : ∀ e ∈ es, wfEntry e = true) (hpl : ∀ e ∈ es, plainEntry e = true) :
+    parseEntries (formatEntries w es) = .ok es ∧ format w (formatEntries w es) = .ok (formatEntries w es) := by
+  have h := C05_format_parse w es (fun e he => C05_entry w e (hwf e he) (hpl e he))
+  exact ⟨h, by simp [format, h, Outcome.map']⟩
+
+example : wfEntry (.txn exTxn) = true ∧ plainEntry (.txn exTxn) = true :=
+  ⟨by simpa [wfEntry] using exTxn_wf, by
+    apply List.all_eq_true.mpr
+    intro v hv
+    exact exTxn_plain v (by simpa [exprsOfEntry] using hv)⟩
 
 /-! ## non-vacuity -/
 
